@@ -76,5 +76,9 @@ pub fn as_rust_identifier(name: &str) -> String {
     if identifier.is_empty() || identifier.starts_with(|c: char| c.is_ascii_digit()) {
         identifier.insert(0, '_');
     }
+    // a single underscore is a reserved word, not an identifier
+    if identifier == "_" {
+        identifier.push('_');
+    }
     identifier
 }
